@@ -1329,6 +1329,46 @@ Proof.
   cbn. repeat split; discriminate.
 Qed.
 
+(** * 10b. The waiters of a successful attempt find its result in the cache *)
+(** the obtain worker puts the certificate it is going to hand back into the cache in the step
+    that leads to its release point *)
+Theorem obtain_result_is_cached s t th ch c0 b :
+  t_pc th = PObtLoad ch -> store s (t_name th) = Some c0 ->
+  exists s', thread_step s t th (AStep b) = Some s' /\
+    thr s' t = Some (set_pc th (PObtUnblock ch (RCert (unrevoked c0)))) /\
+    existsb (cert_eqb (unrevoked c0)) (cache s' (t_name th)) = true.
+Proof.
+  intros P St. unfold thread_step. cbv beta zeta. rewrite P, St.
+  eexists. split; [reflexivity|]. cbn. rewrite !upd_same. split; [reflexivity|].
+  unfold cache_add. destruct (existsb (cert_eqb (unrevoked c0)) (cache s (t_name th))) eqn:E; [exact E|].
+  rewrite existsb_app. cbn [existsb]. unfold cert_eqb. rewrite Nat.eqb_refl. cbn. apply orb_true_r.
+Qed.
+
+(** an obtain-map channel is closed only from the two unblock points, i.e. after the load / reload
+    step (or after the attempt has failed) *)
+Theorem release_only_from_unblock s t th a s' th' ch :
+  thread_step s t th a = Some s' -> thr s' t = Some th' ->
+  owns_o (t_pc th) = Some ch -> owns_o (t_pc th') <> Some ch ->
+  (exists r, t_pc th = PObtUnblock ch r) \/ (exists c r bg, t_pc th = PRenUnblock ch c r bg).
+Proof.
+  intros H Ht' O N. unfold thread_step in H.
+  destruct (t_pc th) eqn:P; cbn in O; try discriminate; inv O; destruct a; try discriminate;
+    split_step H; inv H; cbn in Ht'; rewrite ?upd_same in Ht'; inv Ht'; cbn in N;
+    try (exfalso; apply N; reflexivity); eauto.
+Qed.
+
+(** a goroutine that re-enters after its wait while the cache holds an unexpired certificate for the
+    name is answered with an unexpired certificate *)
+Theorem reentry_gets_unexpired s t th b :
+  t_pc th = PStart false -> (exists x, In x (cache s (t_name th)) /\ expired x = false) ->
+  exists s' y, thread_step s t th (AStep b) = Some s' /\
+    thr s' t = Some (set_pc th (PRet (RCert y))) /\ expired y = false.
+Proof.
+  intros P Ex. destruct (lookup_prefers_unexpired _ Ex) as (y & L & E).
+  unfold thread_step. cbv beta zeta. rewrite P, L.
+  eexists. exists y. split; [reflexivity|]. cbn. rewrite upd_same. split; [reflexivity|exact E].
+Qed.
+
 (** * The statement shapes of the source the LTS was written against (translator item
     c13EmitC13Shape): every re-entry into getCertDuringHandshake passes loadOrObtainIfNecessary =
     false; each of the three release sections is Lock; close(wait); delete(map, name); Unlock (one
